@@ -148,6 +148,9 @@ class Emitter:
                     attrs += ' %s="%s"' % (k, v)
             if n.get("body_args"):
                 attrs += ' args="%s"' % n["body_args"]
+            if n.get("selfclose") and not n["defs"] and not n["body"]:
+                self.w("<%" + tag + attrs + "/>")  # no content at all: the callee still has a caller, with an empty body
+                return
             self.w("<%" + tag + attrs + ">")
             for d in n["defs"]:
                 self.node(d)
